@@ -1773,7 +1773,9 @@ func (r *replicateChannelHandler) handlePack(forward bool, pack *msgstream.MsgPa
 	}
 	GetTSManager().UnsafeUpdatePackTS(tsManagerChannelKey, newPack.BeginTs, func(newTS uint64) (uint64, bool) {
 		reset := resetMsgPackTimestamp(newPack, newTS)
-		generateTS = newPack.EndTs
+		if reset {
+			generateTS = newPack.EndTs
+		}
 		return newPack.EndTs, reset
 	})
 
